@@ -484,6 +484,57 @@ func checkR13_2(w *World, r *Report, kt *kindTable) {
 		}
 	}
 
+	// conditional wrappers: functions with an error result that run a pass on every path on which
+	// the error they return is nil (`toks, err := tokenize(); if err == nil { pass() }; return …, err`)
+	condPasses := map[*types.Func]bool{}
+	for _, fn := range w.pkgFuncs() {
+		obj, _ := fn.Object().(*types.Func)
+		ei := errResultIndex(fn.Signature)
+		if obj == nil || passes[obj] || len(fn.Blocks) == 0 || ei < 0 {
+			continue
+		}
+		gen := func(x ssa.Instruction) bool {
+			if cc, ok := x.(ssa.CallInstruction); ok {
+				if f := calleeFunc(cc); f != nil && passes[f] {
+					return true
+				}
+			}
+			return false
+		}
+		calls := false
+		instrsOf(fn, func(in ssa.Instruction) {
+			if gen(in) {
+				calls = true
+			}
+		})
+		if !calls {
+			continue
+		}
+		all, nret := true, 0
+		instrsOf(fn, func(in ssa.Instruction) {
+			ret, ok := in.(*ssa.Return)
+			if !ok {
+				return
+			}
+			nret++
+			res := retResults(ret)
+			var assume []ssa.Value
+			if ei < len(res) {
+				if isNilConst(res[ei]) {
+					assume = nil
+				} else {
+					assume = []ssa.Value{res[ei]}
+				}
+			}
+			if bad, _ := existsPathAssuming(fn, nil, in, gen, nil, assume); bad {
+				all = false
+			}
+		})
+		if all && nret > 0 {
+			condPasses[obj] = true
+		}
+	}
+
 	// (c) Parse: every feasible path to the parser's main loop passes a whitespace-control pass
 	parse := w.ssaFunc(w.method("Parser", "Parse"))
 	outer := w.method("Parser", "parseOuterTemplate")
@@ -502,7 +553,42 @@ func checkR13_2(w *World, r *Report, kt *kindTable) {
 			}
 			return false
 		}
-		if bad, path := existsPathAvoiding(parse, in, gen, nil); bad {
+		// the nil edge of a test of the error returned by a conditional wrapper
+		edgeGen := func(b *ssa.BasicBlock, i int) bool {
+			v, trueIdx, ok := ifCond(b)
+			if !ok {
+				return false
+			}
+			bo, ok := v.(*ssa.BinOp)
+			if !ok || (bo.Op != token.EQL && bo.Op != token.NEQ) {
+				return false
+			}
+			x, y := bo.X, bo.Y
+			if isNilConst(x) {
+				x, y = y, x
+			}
+			if !isNilConst(y) {
+				return false
+			}
+			ex, ok := unspill(x).(*ssa.Extract)
+			if !ok {
+				return false
+			}
+			call, ok := ex.Tuple.(*ssa.Call)
+			if !ok {
+				return false
+			}
+			f := calleeFunc(call)
+			if f == nil || !condPasses[f] || ex.Index != errResultIndex(call.Call.Signature()) {
+				return false
+			}
+			nilIdx := trueIdx
+			if bo.Op == token.NEQ {
+				nilIdx = 1 - trueIdx
+			}
+			return i == nilIdx
+		}
+		if bad, path := existsPathAvoiding(parse, in, gen, edgeGen); bad {
 			r.bad("R13.2", ssaName(parse), "whitespace pass before parseOuterTemplate", w.posOf(in.Pos()), "a feasible path reaches the parser without the whitespace-control pass: "+strings.Join(path, " → "))
 		} else {
 			r.ok("R13.2", ssaName(parse), "whitespace pass before parseOuterTemplate", w.posOf(in.Pos()), "every feasible path from entry passes a whitespace-control pass (nil-test correlation on err)", true)
@@ -654,6 +740,34 @@ func checkR13_3(w *World, r *Report, kt *kindTable) {
 			}
 			return true
 		})
+	}
+	// kinds listed in package-level tables (`var tagTypes = [...]int{TOKEN_VAR_START_TRIM, …}`)
+	// that tokenizer-side functions index are produced as well
+	for _, f := range w.Files {
+		for _, d := range f.Decls {
+			gd, ok := d.(*ast.GenDecl)
+			if !ok || gd.Tok != token.VAR {
+				continue
+			}
+			for _, sp := range gd.Specs {
+				vs, ok := sp.(*ast.ValueSpec)
+				if !ok {
+					continue
+				}
+				for _, val := range vs.Values {
+					ast.Inspect(val, func(q ast.Node) bool {
+						if id, ok := q.(*ast.Ident); ok {
+							if o := w.Info.Uses[id]; o != nil {
+								if _, isKind := kt.partner[o]; isKind {
+									produced[o] = true
+								}
+							}
+						}
+						return true
+					})
+				}
+			}
+		}
 	}
 	for _, p := range kindPairs {
 		for _, nm := range p {
